@@ -23,7 +23,8 @@ def worker(ck: Check, code):
     ex.shape_ignore = {'Occurence'}
     rs = run_scanner(ck, ex, L, st.slots, 0.0)
     ck.absorb(ex)
-    S = H.merged_result(rs)
+    cov = []
+    S = merged(cov, rs)
     n = B64(S.len)
     occs = [o.fields for o in S.elems if o is not UNINIT and o is not None]
     bad = [('scanner panic: %s %s at %s' % (p.kind, p.msg, p.where), c) for p, c in zip(ex.panics, conds_of(ex.panics))]
@@ -33,14 +34,17 @@ def worker(ck: Check, code):
             exv = make_executor(ck, st.assm)
             rv = run_validator(ck, exv, L, phrase_slots(st, i, j))
             ck.absorb(exv)
-            V[(i, j)] = H.merged_result(rv)
+            V[(i, j)] = merged(cov, rv)
             bad += [('validator panic on words %d..%d: %s %s' % (i, j, p.kind, p.msg), c)
                     for p, c in zip(exv.panics, conds_of(exv.panics))]
     # (a) every non-decimal occurrence validates to its own text
     for x, o in enumerate(occs):
         is_decimal = isinstance(o[3], F64Dec)
+        dec_cond = z3.BoolVal(False)
         if isinstance(o[3], Choice):
-            raise Inconclusive('value is a Choice')
+            # merged value of several kinds: decimal under the conditions of its decimal alternatives
+            dcs = [ZB(c) if not isinstance(c, bool) else z3.BoolVal(c) for c, v_ in o[3].alts if isinstance(v_, F64Dec)]
+            dec_cond = z3.Or(*dcs) if dcs else z3.BoolVal(False)
         for i in range(k):
             for j in range(i, k):
                 v = V[(i, j)]
@@ -50,7 +54,7 @@ def worker(ck: Check, code):
                 if is_decimal:
                     continue
                 bad.append(('occurrence over words %d..%d does not validate to its own text' % (i, j),
-                            z3.And(span, z3.Not(same))))
+                            z3.And(span, z3.Not(dec_cond), z3.Not(same))))
     # (b) whatever the validator accepts is seen by the scanner as exactly one number with the same digits
     full = V[(0, k - 1)]
     okp = full.payload(0)
@@ -103,7 +107,7 @@ def worker(ck: Check, code):
                 problems.append(('left-out', 'word %r validates to %r on its own but is in no occurrence at threshold 0' % (w, v1['ok']['Ok'])))
         return {'key': {'lang': code, 'kind': problems[0][0] if problems else ''}, 'reproduced': bool(problems), 'replay': rep,
                 'what': '%s: %s' % (code, '; '.join(p[1] for p in problems[:2]))}
-    ck.prove_none('%s:agree' % code, st.assm, bad, on_cex, lambda m, c: None)
+    ck.prove_none('%s:agree' % code, st.assm, guard(cov, bad), on_cex, lambda m, c: None)
     ck.cover('%s:agree:valid-phrase' % code, st.assm + [B64(full.disc) == 0], lambda m: {'lang': code, 'words': [t[0] for t in st.concrete(m)[::2]]})
     ck.cover('%s:agree:two-numbers' % code, st.assm + [z3.UGE(n, 2)], lambda m: {'lang': code, 'words': [t[0] for t in st.concrete(m)[::2]]})
     ck.bounds['phrase_words'] = k
